@@ -7,6 +7,7 @@ use std::panic::{catch_unwind, AssertUnwindSafe};
 mod ops_codec;
 mod ops_gossip;
 mod ops_raft;
+mod ops_wal;
 
 fn dispatch(req: &Value) -> Value {
     let op = req["op"].as_str().unwrap_or("");
@@ -17,6 +18,9 @@ fn dispatch(req: &Value) -> Value {
         return v;
     }
     if let Some(v) = ops_raft::handle(op, req) {
+        return v;
+    }
+    if let Some(v) = ops_wal::handle(op, req) {
         return v;
     }
     json!({"error": format!("unknown op {op}")})
